@@ -840,8 +840,14 @@ func (fr *Frame) builtin(n *vnode, instr *ssa.Call, bi *ssa.Builtin, c *ssa.Call
 		return fr.builtinAppend(n, instr, c)
 	case "print", "println":
 		return &Val{Ty: instr.Type()}
-	case "delete", "clear":
-		x.eng.Note("delete/clear not modelled")
+	case "clear":
+		if _, ok := c.Args[0].Type().Underlying().(*types.Slice); ok {
+			return fr.builtinClear(n, instr, c)
+		}
+		x.eng.Note("delete/clear of a map not modelled")
+		return &Val{Ty: instr.Type()}
+	case "delete":
+		x.eng.Note("delete/clear of a map not modelled")
 		return &Val{Ty: instr.Type()}
 	case "ssa:wrapnilchk":
 		return fr.val(c.Args[0], n)
@@ -908,6 +914,41 @@ func (fr *Frame) builtinCopy(n *vnode, instr *ssa.Call, c *ssa.CallCommon) *Val 
 	}
 	n.heap[comp] = x.nameBig(Store(cur, SArr(dst.T), row), comp)
 	return &Val{T: cntV, Ty: instr.Type()}
+}
+
+// clear(s) on a slice: every element of s becomes the zero value, nothing else changes
+func (fr *Frame) builtinClear(n *vnode, instr *ssa.Call, c *ssa.CallCommon) *Val {
+	x := fr.x
+	dst := fr.val(c.Args[0], n)
+	sl := c.Args[0].Type().Underlying().(*types.Slice)
+	es := x.eng.SortOf(sl.Elem())
+	comp := memComp(es)
+	cur := x.comp(n.heap, comp, memSort(es))
+	if x.frameOK != nil {
+		if g := x.frameOK(&Place{Comp: comp, Elem: es, Ref: SArr(dst.T), Idx: SOff(dst.T)}, n.heap); g != nil {
+			x.vc.Oblige("frame", "", And(n.reach, Gt(SLen(dst.T), IntLit(0))), g, x.pos(instr.Pos()), "clear outside the contract's modifies clause: "+comp)
+		}
+	}
+	row := x.eng.FreshVar(comp+"$row", cur.S.Elem)
+	oldRow := Select(cur, SArr(dst.T))
+	j := Var("j?", SInt)
+	inside := And(Ge(j, SOff(dst.T)), Lt(j, Add(SOff(dst.T), SLen(dst.T))))
+	zero := x.zeroOf(sl.Elem())
+	x.vc.Assume(Implies(n.reach, Forall([]*Term{j}, And(
+		Implies(inside, Eq(App("select", es, row, j), zero)),
+		Implies(Not(inside), Eq(App("select", es, row, j), App("select", es, oldRow, j)))))))
+	if x.opaque["bitAt"] && es.K == KBV && es.W == 8 {
+		B := Var("B?", SInt)
+		lo := Mul(IntLit(8), SOff(dst.T))
+		hi := Mul(IntLit(8), Add(SOff(dst.T), SLen(dst.T)))
+		q := Forall([]*Term{B}, Ite(And(Le(lo, B), Lt(B, hi)),
+			Not(x.rowBit(row, B)),
+			Eq(x.rowBit(row, B), x.rowBit(oldRow, B))))
+		q.Pats = [][]*Term{{x.rowBit(row, B)}}
+		x.vc.Assume(Implies(n.reach, q))
+	}
+	n.heap[comp] = x.nameBig(Store(cur, SArr(dst.T), row), comp)
+	return &Val{Ty: instr.Type()}
 }
 
 func (fr *Frame) builtinAppend(n *vnode, instr *ssa.Call, c *ssa.CallCommon) *Val {
